@@ -48,7 +48,7 @@ def _invoke(fn, cwd):
     import typer
     import logging
 
-    from vf.runner import CaseTimeout
+    from vf.common import CaseTimeout
 
     buf = io.StringIO()
     code, exc = 0, None
